@@ -12,6 +12,7 @@ import (
 	"time"
 
 	dtls "github.com/pion/dtls/v3"
+	dtlsflight "github.com/pion/dtls/v3/internal/flight"
 	"github.com/pion/dtls/v3/pkg/crypto/elliptic"
 	"github.com/pion/dtls/v3/pkg/protocol"
 	"github.com/pion/logging"
@@ -64,6 +65,7 @@ type Endpoint struct {
 	Log      *logSink
 	cidCtr   int
 	HS       *Op
+	cachePtr *dtlsflight.Cache
 }
 
 type lockedBuf struct {
@@ -414,6 +416,7 @@ func (w *World) NewEndpoint(p *PKI, isClient bool, addr, peer Addr, cfg Cfg) (*E
 	}
 	conn := e.Conn
 	w.OnCleanup(func() { _ = conn.Close() })
+	dtls.VerifPeek(conn, func(in dtls.VerifInternals) { e.cachePtr = in.HandshakeCache })
 	return e, nil
 }
 
